@@ -647,3 +647,73 @@ def finished_unpack_arbitrary_tlvs(direction: EnumOf(Direction), mode: EnumOf(Tr
         ensures("no-responses", g.file_store_responses == [])
         o2 = outcome(FinishedPdu.unpack, data[0:n])
         ensures("prefix-only", both(o2.ok, same_state(g, o2.value)))
+
+
+def fin_setter_clauses(pdu, fresh, conf, snap):
+    ensures("caller-config-untouched", same_state(conf, snap))
+    ensures("lengths-as-fresh", both(pdu.packet_len == fresh.packet_len,
+                                     pdu.pdu_header.pdu_data_field_len == fresh.pdu_header.pdu_data_field_len))
+    ensures("equal-to-fresh", both(pdu == fresh, fresh == pdu))
+    raw = pdu.pack()
+    ensures("octets-as-fresh", raw == fresh.pack())
+    ensures("packet_len", pdu.packet_len == len(raw))
+    ensures("data-field-len", pdu.pdu_header.pdu_data_field_len == len(raw) - pdu.pdu_header.header_len)
+    ensures("pack-twice", pdu.pack() == raw)
+    ensures("still-equal", pdu == fresh)
+
+
+FIN_START = Choice((ConditionCode.NO_ERROR, None), (ConditionCode.NO_ERROR, 2), (ConditionCode.FILESTORE_REJECTION, None),
+                   (ConditionCode.FILESTORE_REJECTION, 2))
+
+
+@obligation(["C11", "C06"], "FinishedPdu/setters", bounded="list length <= 1, file names and filestore message <= 80 octets each",
+            verifies=[FIN + "FinishedPdu.file_store_responses", FIN + "FinishedPdu.fault_location",
+                      FIN + "FinishedPdu._calculate_directive_field_len", FIN + "FinishedPdu.file_store_responses_len",
+                      FIN + "FinishedPdu.fault_location_len"])
+def finished_setters(mode: EnumOf(TransmissionMode), crc: EnumOf(CrcFlag), large: EnumOf(LargeFileFlag), src: Int, seq: Int, dst: Int,
+                     start: FIN_START, dc: EnumOf(DeliveryCode), fs: EnumOf(FileStatus), fv0: Int, items0: ListOf(FS_ITEM, 1),
+                     fw1: OptionalOf(Choice(4)), fv1: Int, items1: OptionalOf(ListOf(FS_ITEM, 1))):
+    """fault_location and file_store_responses setters (any condition code: the length must also be right when the fault location is
+    not transmitted) == freshly built PDU with the final values; reported length == packed length"""
+    we = 1
+    ws = 2
+    (cc, fw0) = start
+    requires(ids_in_range(we, ws, src, seq, dst))
+    conf = mk_conf(we, ws, src, seq, dst, mode, crc, large, Direction.TOWARDS_SENDER, SegmentationControl.NO_RECORD_BOUNDARIES_PRESERVATION)
+    snap = snapshot(conf)
+    pdu = FinishedPdu(conf, FinishedParams(cc, dc, fs, mk_responses(items0), mk_fault_location(fw0, fv0)))
+    fault1 = mk_fault_location(fw1, fv1)
+    pdu.fault_location = fault1
+    final = []
+    if items1 is None:
+        pdu.file_store_responses = None
+    else:
+        final = mk_responses(items1)
+        pdu.file_store_responses = final
+    ensures("accessors", both(is_same(pdu.fault_location, fault1), pdu.file_store_responses == final))
+    fresh = FinishedPdu(conf, FinishedParams(cc, dc, fs, final, fault1))
+    fin_setter_clauses(pdu, fresh, conf, snap)
+
+
+@obligation(["C11", "C06"], "FinishedPdu/setters-list2", bounded="list length == 2, file names and filestore message <= 80 octets each",
+            verifies=[FIN + "FinishedPdu.file_store_responses", FIN + "FinishedPdu.fault_location",
+                      FIN + "FinishedPdu._calculate_directive_field_len", FIN + "FinishedPdu.file_store_responses_len"])
+def finished_setters_list2(mode: EnumOf(TransmissionMode), crc: EnumOf(CrcFlag), large: EnumOf(LargeFileFlag), src: Int, seq: Int, dst: Int,
+                           dc: EnumOf(DeliveryCode), fs: EnumOf(FileStatus), fv: Int, item0: FS_ITEM, item1: FS_ITEM, fault_first: Bool):
+    """two responses set on a PDU that had a fault location only; the two setters in either order"""
+    we = 1
+    ws = 2
+    cc = ConditionCode.FILESTORE_REJECTION
+    requires(ids_in_range(we, ws, src, seq, dst))
+    conf = mk_conf(we, ws, src, seq, dst, mode, crc, large, Direction.TOWARDS_SENDER, SegmentationControl.NO_RECORD_BOUNDARIES_PRESERVATION)
+    snap = snapshot(conf)
+    pdu = FinishedPdu(conf, FinishedParams(cc, dc, fs, [], mk_fault_location(2, fv)))
+    final = mk_responses([item0, item1])
+    if fault_first:
+        pdu.fault_location = None
+        pdu.file_store_responses = final
+    else:
+        pdu.file_store_responses = final
+        pdu.fault_location = None
+    fresh = FinishedPdu(conf, FinishedParams(cc, dc, fs, final, None))
+    fin_setter_clauses(pdu, fresh, conf, snap)
